@@ -39,7 +39,7 @@ use crate::{EventSource, LoopHandle, Poll, PostAction, Readiness, Token, TokenFa
 struct Registration {
     token: Token,
     wheel: Rc<RefCell<TimerWheel>>,
-    counter: u32,
+    counter: u64,
 }
 
 /// A timer event source
@@ -197,14 +197,14 @@ pub enum TimeoutAction {
 struct TimeoutData {
     deadline: Instant,
     token: Token,
-    counter: u32,
+    counter: u64,
 }
 
 // A data structure for tracking registered timeouts
 #[derive(Debug)]
 pub(crate) struct TimerWheel {
     heap: BinaryHeap<TimeoutData>,
-    counter: u32,
+    counter: u64,
 }
 
 impl TimerWheel {
@@ -215,18 +215,22 @@ impl TimerWheel {
         }
     }
 
-    pub(crate) fn insert(&mut self, deadline: Instant, token: Token) -> u32 {
+    pub(crate) fn insert(&mut self, deadline: Instant, token: Token) -> u64 {
         self.heap.push(TimeoutData {
             deadline,
             token,
             counter: self.counter,
         });
         let ret = self.counter;
-        self.counter += 1;
+        // a counter identifies one arming for as long as it is in the heap: it must never be handed out twice
+        self.counter = self
+            .counter
+            .checked_add(1)
+            .expect("timer arming counter overflow");
         ret
     }
 
-    pub(crate) fn insert_reuse(&mut self, counter: u32, deadline: Instant, token: Token) {
+    pub(crate) fn insert_reuse(&mut self, counter: u64, deadline: Instant, token: Token) {
         self.heap.push(TimeoutData {
             deadline,
             token,
@@ -234,7 +238,7 @@ impl TimerWheel {
         });
     }
 
-    pub(crate) fn cancel(&mut self, counter: u32) {
+    pub(crate) fn cancel(&mut self, counter: u64) {
         if self
             .heap
             .peek()
@@ -248,7 +252,7 @@ impl TimerWheel {
         self.heap.retain(|data| data.counter != counter);
     }
 
-    pub(crate) fn next_expired(&mut self, now: Instant) -> Option<(u32, Token)> {
+    pub(crate) fn next_expired(&mut self, now: Instant) -> Option<(u64, Token)> {
         // check if there is an expired item
         self.heap.peek().filter(|data| now >= data.deadline)?;
 
